@@ -8,6 +8,7 @@
 #ifndef GAUSSIANPREDICTION_H
 #define GAUSSIANPREDICTION_H
 
+#include <BayesFilters/SkipFlag.h>
 #include <BayesFilters/ExogenousModel.h>
 #include <BayesFilters/GaussianMixturePrediction.h>
 #include <BayesFilters/Skippable.h>
@@ -49,7 +50,7 @@ protected:
 
 
 private:
-    bool skip_ = false;
+    SkipFlag skip_;
 };
 
 #endif /* GAUSSIANPREDICTION_H */
